@@ -2841,6 +2841,7 @@ package decimal128
 //@ ensures FE != 2047 && MANT != 0 && K == 0 ==> sign(r) == FNEG && !isnan(r)
 //@ ensures FE != 2047 && MANT != 0 && K == 0 && isinf(r) ==> Ovf(DefaultRoundingMode, FNEG, rs(V, 12287))
 //@ ensures FE != 2047 && MANT != 0 && K == 0 && !special(r) ==> RndOK(DefaultRoundingMode, FNEG, rs(V, bexp(r)), coef(r), bexp(r))
+//@ assert before "shift := int(52 - exp)": exp == ite(FE == 0, 0 - 1022, FE - 1023) && mant == MANT && neg == FNEG
 //@ limit before "var sig256 uint256"
 //@ props C09 C20
 
@@ -2873,11 +2874,27 @@ package decimal128
 //@ assert before "f := 0.0"#2: coef(d) != 0 && rs(V, 5852) < 1
 //@ assert before "return math.Inf(-1)"#2: rs(V, 6485) >= 1
 //@ assert before "return math.Inf(1)"#2: rs(V, 6485) >= 1
-//@ limit before "var sig256 uint256"
+//@ assert before "sig256 = sig256.mul64(10_000_000_000_000_000_000)": u256(sig256) * 10000000000000000000 < W*W*W*W
+//@ assert before "sig256 = sig256.mul64(10)"#1: u256(sig256) * 10 < W*W*W*W
+//@ assert before "sig256 = sig256.mul64(10)"#2: u256(sig256) * 10 < W*W*W*W
+//@ limit before "shift *= -1"
+//@ limit before "zeros := bits.LeadingZeros64(sig256[3])"#2
+//@ loop 2: invariant 0 <= shift && shift <= 6111 && exp == 0
+//@ loop 3: invariant 0 <= shift && shift <= 6111 && exp == 0
+//@ loop 4: invariant 0 <= shift && shift <= 6111 && 0 <= exp && exp <= 4 * (6111 - shift)
+//@ ghost SH int = 0
+//@ ghost before "exp += 4": SH = shift
+//@ loop 5: invariant 0 <= shift && shift <= SH && SH <= 6111 && SH >= 1 && 4 <= exp && exp <= 4 * (6111 - SH) + 4 && (shift == SH ==> sig256[3] <= 0x0fffffffffffffff)
 //@ props C09 C20
 
 //@ func Decimal.Float32
 //@ returns (f)
 //@ logical V real
 //@ requires !special(d) ==> V >= 0 && rs(V, bexp(d)) == coef(d)
+//@ props C09 C20
+
+//@ func uint256.rsh
+//@ mode bv
+//@ returns (r)
+//@ ensures o <= 256 ==> u256(r) == shr(u256(n), o)
 //@ props C09 C20
